@@ -2324,7 +2324,11 @@ class FuncLength(ValueFunc):
             return ValueInt(len(arg.value))
         if arg.isObject():
             return ValueInt(len(arg.value))
-        raise CklRuntimeError("Cannot determine length of " + arg.type(), pos)
+        raise CklRuntimeError(
+            ValueString("ERROR"),
+            "Cannot determine length of " + arg.type(),
+            pos
+        )
 
 
 class FuncLess(ValueFunc):
